@@ -222,8 +222,8 @@ package mcp
 //@ func mcpHandler.applyMiddlewares
 //@   pure
 //@   loop 1 invariant[C06] 0 - 1 <= i && i < len(h.middlewares)
-//@   loop 1 invariant[C15] 0 - 1 <= i && i < len(h.middlewares) && handler == chain(h.middlewares, old(handler), i + 1)
-//@   ensures[C15 index-0-outermost-each-middleware-once] result == chain(h.middlewares, handler, 0)
+//@   loop 1 invariant[C15,C13] 0 - 1 <= i && i < len(h.middlewares) && handler == chain(h.middlewares, old(handler), i + 1)
+//@   ensures[C15,C13 index-0-outermost-each-middleware-once] result == chain(h.middlewares, handler, 0)
 //@
 //@ func mcpHandler.use
 //@   modifies h.middlewares
@@ -239,7 +239,7 @@ package mcp
 //@   ensures[C15 core-dispatches-exactly-once] dispatches == old(dispatches) + 1
 //@
 //@ func mcpHandler.handleRequest
-//@   before call wrappedHandler#1 assert[C15 whole-chain-around-the-core] wrappedHandler == chain(h.middlewares, coreHandler, 0)
+//@   before call wrappedHandler#1 assert[C15,C13 whole-chain-around-the-core] wrappedHandler == chain(h.middlewares, coreHandler, 0)
 //@   ensures[C15 chain-invoked-exactly-once] len(old(h.middlewares)) > 0 ==> chaincalls == old(chaincalls) + 1
 //@   ensures[C15 direct-dispatch-without-middlewares] len(old(h.middlewares)) == 0 ==> dispatches == old(dispatches) + 1
 
@@ -703,7 +703,7 @@ package mcp
 //@   before call handlePostRequest#1 assert[C13 request-sees-the-context-derived-from-this-http-request] arg1 == old(ctxfold(h.httpContextFuncs, ctx, r, len(h.httpContextFuncs)))
 //@   before call handlePostNotification#1 assert[C13 notification-sees-the-context-derived-from-this-http-request] arg1 == old(ctxfold(h.httpContextFuncs, ctx, r, len(h.httpContextFuncs)))
 //@   before call handlePostResponse#1 assert[C13 answer-sees-the-context-derived-from-this-http-request] arg1 == old(ctxfold(h.httpContextFuncs, ctx, r, len(h.httpContextFuncs)))
-//@   before call handlePostRequest#1 assert[C13 stateless-requests-get-a-session-of-their-own] h.isStateless ==> newsessions == old(newsessions) + 1
+//@   before call handlePostRequest#1 assert[C13,C04 stateless-requests-get-a-session-of-their-own] h.isStateless ==> newsessions == old(newsessions) + 1
 //@
 //@ func httpServerHandler.handlePostRequest
 //@   before call handleRequest#1 assert[C13 handler-context-extends-this-requests-context] derives(arg1, ctx)
@@ -1224,3 +1224,15 @@ package mcp
 //@   before call Marshal#1 assert[C10 every-additional-field-is-on-the-wire-unchanged] forall k string :: (k in p.AdditionalFields) && k != "_meta" ==> (k in arg0.(map[string]interface{})) && arg0.(map[string]interface{})[k] == p.AdditionalFields[k]
 //@   before call Marshal#1 assert[C10 nothing-else-is-on-the-wire] forall k string :: (k in arg0.(map[string]interface{})) && k != "_meta" ==> (k in p.AdditionalFields)
 //@   before call Marshal#1 assert[C10 meta-is-on-the-wire-when-present] len(p.Meta) > 0 ==> ("_meta" in arg0.(map[string]interface{})) && arg0.(map[string]interface{})["_meta"] == asany(p.Meta)
+//@
+// C19 — the background listening stream keeps the values of the context it was started from
+// (so that a before-request function deriving credentials from context values sees them)
+//@ func streamableHTTPClientTransport.establishGetSSE
+//@   ensures[C19 listening-stream-context-derives-from-the-starting-context] derives(t.getSSEConn.ctx, parentCtx)
+//@ func streamableHTTPClientTransport.establishGetSSE$1
+//@   before call connectGetSSE#1 assert[C19 the-stream-is-opened-with-the-derived-context] arg1 == ctx
+//@
+// C13 — the per-request core closure dispatches with this request's own session
+//@ func mcpHandler.handleRequest$1
+//@   before call dispatchRequest#1 assert[C13 context-session-wins] arg3 == sessionFromCtx && arg1 == ctx && arg2 == req
+//@   before call dispatchRequest#2 assert[C13 otherwise-the-session-of-the-request-that-built-this-closure] arg3 == session && arg1 == ctx && arg2 == req
